@@ -32,6 +32,12 @@ def run(pid="all"):
         for mut in ("KeysFromSorted", "FoldOnlyOnce"):
             res = tlcrun.run("Determinism", f"Determinism_mut_{mut}.cfg", workers=4, timeout=300, expect_violation=True)
             expect(f"Determinism with {mut} = TRUE violates OrderInsensitive", bool(res["violated"]), str(res["violated"]))
+        tsf = os.path.join(work, "rts.ndjson")
+        write_ndjson(tsf, [{"t": t} for t in gen.rule_patterns("quick")[::9] if J.size(t) <= 20])
+        res = tlcrun.run("ReduceTS", "ReduceTS_mut_PushNegationInward.cfg", trace_file=tsf, workers=8, timeout=600, expect_violation=True)
+        expect("ReduceTS with a rule that pushes Negation back inside Reciprocal (a loop) violates Bounded", bool(res["violated"]), str(res["violated"]))
+        res = tlcrun.run("ReduceTS", "ReduceTS_mut_loop_liveness.cfg", trace_file=tsf, workers=8, timeout=600, expect_violation=True)
+        expect("... and, with the step counter hidden, the liveness property Terminates (a lasso)", bool(res["violated"]), str(res["violated"]))
         res = eng_api.model_check(eng_api.kf1_pool(), work, cfg="Smoothmath_each.cfg", expect_violation=True)
         expect("the model with rewrite rule T2 as implemented (KF-1) fails on the kf1 pool", bool(res["violated"]), str(res["violated"]))
         # operational model of differentiation with the D2 short-cut as it was before the fix: design-level counterexample
